@@ -59,6 +59,7 @@ type Result struct {
 	Alias   [][2]int `json:"alias,omitempty"` // (output k, input i) same object
 	Extra   any      `json:"extra,omitempty"`
 	Probed  bool     `json:"reuse_probed,omitempty"`
+	Pooled  bool     `json:"operand_object_reused,omitempty"` // an operand is the tensor OBJECT of an earlier case (equal contents)
 	Edited  bool     `json:"node_edit_probed,omitempty"` // the NodeProto object had been decoded before with other attribute contents
 	Reuse   []string `json:"reuse,omitempty"` // warm-ups after which a re-used operator instance answers differently
 }
